@@ -60,6 +60,7 @@ type Prog struct {
 	propReports   map[string]*Report
 	e11c          *e11
 	e12c          *e12Result
+	freshParamDepth int
 	e12t          map[*types.Var]string
 	e12f          *e12Flow
 	importing     bool
